@@ -342,7 +342,7 @@ namespace vf {
       if (o.watchdog) { const_cast<Options&>(o).last_kick = std::chrono::steady_clock::now() - std::chrono::seconds(10); o.kick(); }
       // VERIF_PRELUDE=1: a decoy Lexicon lives and dies, a second one stays alive, before the exploration starts (prelude.hpp);
       // the handlers above are already in place, so a crash or hang in there is reported like any other.
-      prelude();
+      prelude(prop);
    }
 }
 
